@@ -14,6 +14,7 @@ import (
 
 	"verif/checker/internal/eval"
 	"verif/checker/internal/flow"
+	"verif/checker/internal/load"
 	"verif/checker/internal/ref"
 )
 
@@ -450,7 +451,7 @@ func (c *Ctx) traitBit(rule string, pk *packages.Package, name string) int64 {
 
 func (c *Ctx) ruleHTMLTraits() {
 	const rule = "R17.htmltraits"
-	c.R.Rule(rule, "html.tagMap / html.attrMap trait bits against the HTML Living Standard: rawTag ⊆ raw-text, escapable-raw-text and generic-raw-text elements ∪ {svg, math}; blockTag ⊆ elements rendered as block / list-item / table part / line break or not rendered; omitPTag ⊆ elements whose start tag implies </p>; keepPTag ⊇ {a audio del ins map noscript video}; booleanAttr ⊆ boolean attributes; urlAttr ⊆ URL-valued attributes")
+	c.R.Rule(rule, "html.tagMap / html.attrMap trait bits against the HTML Living Standard: rawTag ⊆ raw-text, escapable-raw-text and generic-raw-text elements ∪ {svg, math}; blockTag ⊆ elements rendered as block / list-item / table part / line break or not rendered; omitPTag ⊆ elements whose start tag implies </p>; keepPTag ⊇ {a audio del ins map noscript video}; booleanAttr ⊆ boolean attributes; urlAttr ⊆ URL-valued attributes; trimAttr ∩ attributes whose white space is significant (text, regular expressions, code) = ∅; every raw text element of the lexer in which a parser decodes no references has rawTag")
 	h := c.loadHash(rule, "html")
 	m, pk := c.tableMap(rule, "html", "tagMap")
 	if m != nil && h != nil {
@@ -484,10 +485,33 @@ func (c *Ctx) ruleHTMLTraits() {
 			c.R.Check(keepSeen[name], rule, "html.tagMap/keepPTag ⊇ "+name, "-", "has keepPTag", "</p> followed by </"+name+"> may not be omitted (HTML optional tags), but "+name+" lacks keepPTag")
 		}
 		c.R.Floor(rule, "tagMap entries", len(m.Entries), 100)
+		// the other direction for raw text: what the lexer returns as one raw token, and what an HTML parser takes
+		// literally (no character references), must not be rewritten as ordinary text
+		lexRaw := c.lexerRawTags(rule)
+		hasRaw := map[string]bool{}
+		for _, e := range m.Entries {
+			kv, _ := e.Key.(int64)
+			tv, _ := e.Value.(int64)
+			if name, ok := h.decode(kv); ok && tv&raw != 0 {
+				hasRaw[name] = true
+			}
+		}
+		nr := 0
+		for _, name := range sortedKeys(lexRaw) {
+			if !ref.HTMLRawTextNoReferences[name] {
+				continue
+			}
+			nr++
+			c.R.Check(hasRaw[name], rule, "html.tagMap/rawTag ⊇ "+name, "-", "has rawTag", "the lexer returns the content of <"+name+"> as one raw text token and an HTML parser reads it literally, but "+name+" lacks rawTag: the minifier collapses its white space and decodes character references in it (`<xmp>a   b &amp;amp;</xmp>` → `<xmp>a b &amp;</xmp>` displays different text)")
+		}
+		if lexRaw != nil {
+			c.R.Floor(rule, "raw text elements of the lexer that take no character references", nr, 4)
+		}
 	}
 	am, pk := c.tableMap(rule, "html", "attrMap")
 	if am != nil && h != nil {
 		boolean, url := c.traitBit(rule, pk, "booleanAttr"), c.traitBit(rule, pk, "urlAttr")
+		trim := c.traitBit(rule, pk, "trimAttr")
 		for _, e := range am.Entries {
 			kv, _ := e.Key.(int64)
 			tv, _ := e.Value.(int64)
@@ -496,6 +520,9 @@ func (c *Ctx) ruleHTMLTraits() {
 			var bad []string
 			if tv&boolean != 0 && !ref.HTMLBooleanAttrs[name] {
 				bad = append(bad, "booleanAttr: "+name+" is not a boolean attribute; its value would be dropped")
+			}
+			if tv&trim != 0 && (ref.HTMLWhitespaceSignificantAttrs[name] || strings.HasPrefix(name, "on")) {
+				bad = append(bad, "trimAttr: the value of "+name+" is free text / a regular expression / code; collapsing its white space changes it (`pattern=\"a  b\"` matches two spaces)")
 			}
 			if tv&url != 0 && !ref.HTMLURLAttrs[name] {
 				bad = append(bad, "urlAttr: "+name+" is not URL-valued; scheme stripping / data-URI rewriting would corrupt it")
@@ -559,6 +586,12 @@ func (c *Ctx) ruleMimeAndSVG() {
 var _ = ast.Inspect
 
 func init() {
+	mutant(&Mutant{Name: "c17-pattern-trimmed", Property: "C17", File: "html/table.go",
+		Old: "\tOptimum:                  trimAttr, // float\n", New: "\tOptimum:                  trimAttr, // float\n\tPattern:                  trimAttr, // regex\n",
+		Rule: "R17.htmltraits", Construct: "attrMap[Pattern]"})
+	mutant(&Mutant{Name: "c17-xmp-not-raw", Property: "C17", File: "html/table.go",
+		Old: "\tXmp:       rawTag | blockTag,\n", New: "\tXmp:       blockTag,\n",
+		Rule: "R17.htmltraits", Construct: "rawTag ⊇ xmp"})
 	mutant(&Mutant{Name: "c17-value-equal-to-name-treated-as-boolean", Property: "C17", File: "html/html.go",
 		Old: "if 0 < len(val) && attr.Traits&booleanAttr == 0 {", New: "if 0 < len(val) && attr.Traits&booleanAttr == 0 && !parse.EqualFold(val, attr.Text) {",
 		Rule: "R17.boolwriter", Construct: "value written unless the table says boolean"})
@@ -644,4 +677,49 @@ func (c *Ctx) ruleBooleanWriter() {
 		c.R.Check(len(foreign) == 0 && sawTrait, rule, fmt.Sprintf("html.Minifier.Minify/value written unless the table says boolean#%d", n), c.pos(a), "guard over len(value) and Traits&booleanAttr only", "whether an attribute keeps its value also depends on "+strings.Join(foreign, ", ")+": attributes the table does not mark boolean lose their value when it happens to satisfy that test")
 	}
 	c.R.Floor(rule, "writes of `=` in the attribute writer", n, 1)
+}
+
+// lexerRawTags: the element names for which the parse/v2 html lexer switches to raw text — read off the
+// comparison chain `h == X || …` that guards `l.rawTag = h` in its source.
+func (c *Ctx) lexerRawTags(rule string) map[string]bool {
+	dep := c.P.Dep(load.ParseMod + "/html")
+	if dep == nil {
+		c.R.Unres(rule, "parse/html lexer raw tags", "-", "dependency package not loaded")
+		return nil
+	}
+	out := map[string]bool{}
+	for _, f := range dep.Syntax {
+		ast.Inspect(f, func(x ast.Node) bool {
+			ifs, ok := x.(*ast.IfStmt)
+			if !ok {
+				return true
+			}
+			sets := false
+			ast.Inspect(ifs.Body, func(q ast.Node) bool {
+				if as, ok := q.(*ast.AssignStmt); ok && len(as.Lhs) == 1 && strings.HasSuffix(nospace(str(as.Lhs[0])), ".rawTag") {
+					sets = true
+				}
+				return true
+			})
+			if !sets {
+				return true
+			}
+			ast.Inspect(ifs.Cond, func(q ast.Node) bool {
+				if be, ok := q.(*ast.BinaryExpr); ok && be.Op.String() == "==" {
+					if id, ok := be.Y.(*ast.Ident); ok {
+						if k, isConst := dep.TypesInfo.Uses[id].(*types.Const); isConst && strings.HasSuffix(k.Type().String(), ".Hash") {
+							out[strings.ToLower(id.Name)] = true
+						}
+					}
+				}
+				return true
+			})
+			return true
+		})
+	}
+	if len(out) < 5 {
+		c.R.Unres(rule, "parse/html lexer raw tags", "-", fmt.Sprintf("only %d raw text elements found in the lexer source", len(out)))
+		return nil
+	}
+	return out
 }
